@@ -102,7 +102,7 @@ impl Family {
             2 => modes[n - 1] = Mode::BadSig,
             _ => {}
         }
-        (Plan { kind: self.kind, shape, ts, modes, rank }, variant)
+        (Plan { kind: self.kind, shape, ts, modes, rank, root_author: N }, variant)
     }
 }
 
